@@ -5,6 +5,8 @@ package pq
 func init() {
 	vxRegister("H20qStep", H20qStep)
 	vxRegister("H20qStepQ", H20qStepQ)
+	vxRegister("H20qStep9", H20qStep9)
+	vxRegister("H20qStep13", H20qStep13)
 	vxRegister("H20qBase", H20qBase)
 }
 
@@ -44,6 +46,8 @@ func vxCheckHeap(q *Queue, tag string) {
 }
 
 func H20qStep()  { h20qStep(6) }
+func H20qStep9() { h20qStep(9) }
+func H20qStep13() { h20qStep(13) }
 func H20qStepQ() { h20qStep(6) }
 
 // h20qStep: one operation from an arbitrary valid heap (inductive step).
